@@ -1,11 +1,458 @@
 package rules
 
-// Thorough runs the extra, deeper work of the thorough tier for a property.
-// Registered per property in thoroughHooks.
-var thoroughHooks = map[string][]func(*Ctx){}
+import (
+	"bytes"
+	"fmt"
+	"go/ast"
+	"go/format"
+	"go/parser"
+	"go/token"
+	"os"
+	"os/exec"
+	"path/filepath"
+	"sort"
+	"strconv"
+	"strings"
+	"sync"
 
+	"gldapverif/an"
+
+	"golang.org/x/tools/go/callgraph"
+	"golang.org/x/tools/go/callgraph/cha"
+	"golang.org/x/tools/go/callgraph/vta"
+	"golang.org/x/tools/go/ssa"
+	"golang.org/x/tools/go/ssa/ssautil"
+)
+
+// Thorough runs the deeper work of the thorough tier for one property:
+// (a) the same rules on a GOARCH=386 load, (b) a VTA call-graph cross-check of
+// the slices the rules rely on, (c) the Overlay mutant self-test.
 func Thorough(c *Ctx, id string) {
-	for _, h := range thoroughHooks[id] {
-		h(c)
+	self, err := os.Executable()
+	if err != nil {
+		c.R.Fatal("thorough: cannot find own executable: %v", err)
+		return
 	}
+	if c.R.Extra == nil {
+		c.R.Extra = map[string]any{}
+	}
+	// ---- (a) 386
+	out, code := runSelf(self, "-prop", id, "-tier", "quick", "-goarch", "386", "-noevidence", "-repo", c.Repo, "-verif", c.Verif)
+	c.R.Extra["goarch_386"] = map[string]any{"exit": code, "summary": lastLine(out)}
+	if code != 0 {
+		c.R.Fail("THOROUGH-386", id+": rules on a GOARCH=386 load", "-", "the property's rules report a violation when the program is loaded for a 32-bit target: "+firstViolations(out))
+	} else {
+		c.R.OK("THOROUGH-386", id+": rules on a GOARCH=386 load", "-", lastLine(out))
+	}
+	// ---- (b) VTA cross-check
+	c.vtaCrossCheck(id)
+	// ---- (c) mutants
+	c.mutantSelfTest(self, id)
+}
+
+func runSelf(self string, args ...string) (string, int) {
+	cmd := exec.Command(self, args...)
+	cmd.Env = os.Environ()
+	var buf bytes.Buffer
+	cmd.Stdout = &buf
+	cmd.Stderr = &buf
+	err := cmd.Run()
+	code := 0
+	if err != nil {
+		code = 1
+		if ee, ok := err.(*exec.ExitError); ok {
+			code = ee.ExitCode()
+		}
+	}
+	return buf.String(), code
+}
+
+func lastLine(s string) string {
+	ls := strings.Split(strings.TrimSpace(s), "\n")
+	return ls[len(ls)-1]
+}
+
+func firstViolations(s string) string {
+	var out []string
+	for _, l := range strings.Split(s, "\n") {
+		if strings.Contains(l, "violated") || strings.Contains(l, "undecided") || strings.Contains(l, "CANNOT") {
+			out = append(out, strings.TrimSpace(l))
+		}
+	}
+	if len(out) > 3 {
+		out = out[:3]
+	}
+	return strings.Join(out, " | ")
+}
+
+// ---------------------------------------------------------------- VTA
+
+var vtaGraph *callgraph.Graph
+
+func (c *Ctx) vta() *callgraph.Graph {
+	if vtaGraph == nil {
+		vtaGraph = vta.CallGraph(ssautil.AllFunctions(c.P.SSA), cha.CallGraph(c.P.SSA))
+	}
+	return vtaGraph
+}
+
+// vtaCrossCheck: every in-module callee that VTA reaches from the functions of
+// the property's slice must be inside the slice the static rules analysed
+// (calls of handler values excepted: handlers are opaque user code by design).
+func (c *Ctx) vtaCrossCheck(id string) {
+	var slice []*ssa.Function
+	var what string
+	switch id {
+	case "C02":
+		if f := c.P.Func(G, "(*conn).readRequest"); f != nil {
+			e := c.newPF()
+			slice = e.slice([]*ssa.Function{f})
+			what = "decode slice"
+		}
+	case "C07", "C08", "C11", "C12", "C06":
+		m := c.serverModel()
+		if m != nil {
+			seen := map[*ssa.Function]bool{}
+			for f := range syncReach(m.connFn) {
+				for _, a := range an.WithClosures(f) {
+					seen[a] = true
+				}
+			}
+			for f := range seen {
+				slice = append(slice, f)
+			}
+			what = "connection goroutine slice"
+		}
+	default:
+		c.R.Extra["vta"] = "no call-graph slice is used by this property's rules"
+		return
+	}
+	in := map[*ssa.Function]bool{}
+	for _, f := range slice {
+		in[f] = true
+	}
+	g := c.vta()
+	missing := map[string]bool{}
+	edges := 0
+	for _, f := range slice {
+		n := g.Nodes[f]
+		if n == nil {
+			continue
+		}
+		for _, e := range n.Out {
+			callee := e.Callee.Func
+			if callee == nil || !an.InModule(callee) || len(callee.Blocks) == 0 || c.P.IsTestFile(callee.Pos()) || takesTestingT(callee) {
+				continue
+			}
+			edges++
+			if in[callee] {
+				continue
+			}
+			// opaque by design: handler values, OnClose callbacks and Option closures applied by applyOpts
+			if e.Site != nil {
+				cc := e.Site.Common()
+				if isHandlerInvoke(cc) || isOnClose(cc) {
+					continue
+				}
+				if cc.StaticCallee() == nil && !cc.IsInvoke() {
+					if an.TypeIs(cc.Value.Type(), G, "Option") || an.TypeIs(cc.Value.Type(), TD, "Option") {
+						continue
+					}
+				}
+				if _, isGoStmt := e.Site.(*ssa.Go); isGoStmt {
+					continue // another goroutine: analysed as its own slice
+				}
+			}
+			missing[an.ShortName(f)+" -> "+an.ShortName(callee)] = true
+		}
+	}
+	var ms []string
+	for k := range missing {
+		ms = append(ms, k)
+	}
+	sort.Strings(ms)
+	c.R.Extra["vta"] = map[string]any{"slice": what, "functions": len(slice), "in_module_edges": edges, "missing": ms}
+	if len(ms) > 0 {
+		c.R.Fail("THOROUGH-vta", id+": static "+what+" covers the VTA call graph", "-", "VTA finds in-module call edges the static slice lacks: "+strings.Join(ms, "; "))
+	} else {
+		c.R.OK("THOROUGH-vta", id+": static "+what+" covers the VTA call graph", "-", fmt.Sprintf("%d functions, %d in-module VTA edges, none outside the slice", len(slice), edges))
+	}
+}
+
+// ---------------------------------------------------------------- mutants
+
+// anchor files per property (from the property's anchors)
+var mutantFiles = map[string][]string{
+	"C01": {"packet.go", "message.go", "request.go", "add.go"},
+	"C02": {"packet.go", "control.go", "add.go"},
+	"C03": {"mux.go", "route.go"},
+	"C04": {"response.go", "request.go", "response_options.go", "entry.go"},
+	"C05": {"response.go", "conn.go"},
+	"C06": {"conn.go"},
+	"C07": {"server.go", "conn.go"},
+	"C08": {"server.go", "conn.go"},
+	"C09": {"server.go", "request.go"},
+	"C10": {"conn.go"},
+	"C11": {"server.go"},
+	"C12": {"server.go"},
+	"C13": {"conn.go", "request.go"},
+	"C14": {"control.go"},
+	"C15": {"conn.go", "response.go", "server.go", "testdirectory/directory.go"},
+	"C16": {"request.go", "sid.go", "entry.go"},
+	"C17": {"server.go"},
+	"C18": {"server.go", "testdirectory/testing.go"},
+	"C19": {"testdirectory/directory.go"},
+	"C20": {"testdirectory/directory.go"},
+}
+
+// functions a property's mutants are restricted to ("" = whole file)
+var mutantFuncs = map[string][]string{
+	"C03": {"serve", "match"},
+	"C04": {"packet", "NewResponse", "NewModifyResponse", "NewExtendedResponse", "NewBindResponse", "NewSearchDoneResponse", "NewSearchResponseEntry", "beginResponse", "addOptionalResponseChildren", "Write", "encode", "SetResultCode", "SetMatchedDN", "SetDiagnosticMessage", "AddAttribute"},
+	"C05": {"Write", "newResponseWriter", "serveRequests"},
+	"C06": {"serveRequests", "readRequest"},
+	"C07": {"Run", "serveRequests"},
+	"C08": {"Run", "close", "serveRequests"},
+	"C09": {"Run", "newConn", "ConnectionID"},
+	"C10": {"serveRequests"},
+	"C11": {"Run", "Stop"},
+	"C12": {"Run", "Stop"},
+	"C13": {"serveRequests", "StartTLS", "initConn"},
+	"C14": {"Encode", "NewControlBeheraPasswordPolicy", "encodeControls"},
+	"C15": {"initConn", "readPacket", "Write", "Run", "Stop", "Ready", "Router", "SetUsers", "SetGroups", "SetControls", "Users", "Groups", "handleBind", "handleAdd", "handleDelete", "handleModify"},
+	"C16": {"ConvertString", "readLength", "SIDBytes", "SIDBytesToString", "NewEntry", "NewEntryAttribute", "AddValue"},
+	"C17": {"Run", "Ready"},
+	"C18": {"Run", "GetTLSConfig"},
+	"C19": {"handleBind"},
+	"C20": {"handleModify", "handleAdd", "handleDelete", "handleSearchUsers", "find"},
+	"C01": {"requestType", "requestPacket", "requestMessageID", "simpleBindParameters", "searchParmeters", "modifyParameters", "addParameters", "deleteParameters", "extendedOperationName", "controlPacket", "newMessage", "newRequest", "decodeAttribute"},
+	"C02": {"requestPacket", "requestMessageID", "simpleBindParameters", "searchParmeters", "modifyParameters", "addParameters", "deleteParameters", "extendedOperationName", "controlPacket", "assert", "assertApplicationRequest", "basicValidation", "decodeControl", "decodeAttribute"},
+}
+
+type mutant struct {
+	file string
+	desc string
+	src  []byte
+}
+
+// genMutants applies each operator at each site of the selected functions; one mutant per site.
+func genMutants(repo, rel string, funcs []string) []mutant {
+	path := filepath.Join(repo, rel)
+	orig, err := os.ReadFile(path)
+	if err != nil {
+		return nil
+	}
+	want := map[string]bool{}
+	for _, f := range funcs {
+		want[f] = true
+	}
+	// count sites first by a dry traversal, then re-parse per mutant
+	type site struct {
+		kind string
+		idx  int
+	}
+	var sites []site
+	visit := func(apply int, kindSel string) ([]byte, string) {
+		fset := token.NewFileSet()
+		file, err := parser.ParseFile(fset, path, orig, parser.ParseComments)
+		if err != nil {
+			return nil, ""
+		}
+		counter := map[string]int{}
+		desc := ""
+		hit := func(kind string) bool {
+			i := counter[kind]
+			counter[kind]++
+			if apply < 0 {
+				sites = append(sites, site{kind, i})
+				return false
+			}
+			return kind == kindSel && i == apply
+		}
+		pos := func(n ast.Node) string { return fmt.Sprintf("%s:%d", rel, fset.Position(n.Pos()).Line) }
+		for _, d := range file.Decls {
+			fd, ok := d.(*ast.FuncDecl)
+			if !ok || fd.Body == nil || (len(want) > 0 && !want[fd.Name.Name]) {
+				continue
+			}
+			ast.Inspect(fd.Body, func(n ast.Node) bool {
+				switch x := n.(type) {
+				case *ast.BinaryExpr:
+					var nop token.Token
+					switch x.Op {
+					case token.LSS:
+						nop = token.LEQ
+					case token.LEQ:
+						nop = token.LSS
+					case token.GTR:
+						nop = token.GEQ
+					case token.GEQ:
+						nop = token.GTR
+					case token.EQL:
+						nop = token.NEQ
+					case token.NEQ:
+						nop = token.EQL
+					}
+					if nop != token.ILLEGAL && hit("relop") {
+						desc = fmt.Sprintf("%s: %s -> %s in %s", pos(x), x.Op, nop, fd.Name.Name)
+						x.Op = nop
+					}
+				case *ast.BasicLit:
+					if x.Kind == token.INT && hit("intlit") {
+						if v, err := strconv.Atoi(x.Value); err == nil {
+							desc = fmt.Sprintf("%s: integer literal %d -> %d in %s", pos(x), v, v+1, fd.Name.Name)
+							x.Value = strconv.Itoa(v + 1)
+						}
+					}
+				case *ast.BlockStmt:
+					for i := 0; i < len(x.List); i++ {
+						st := x.List[i]
+						del := false
+						switch y := st.(type) {
+						case *ast.ExprStmt:
+							if call, ok := y.X.(*ast.CallExpr); ok {
+								if sel, ok := call.Fun.(*ast.SelectorExpr); ok {
+									switch sel.Sel.Name {
+									case "Lock", "Unlock", "RLock", "RUnlock", "Wait", "Done", "Add", "Flush", "AppendChild", "SetResultCode":
+										del = true
+									}
+								}
+							}
+						case *ast.DeferStmt:
+							del = true
+						case *ast.GoStmt:
+							if hit("ungo") {
+								desc = fmt.Sprintf("%s: go statement made synchronous in %s", pos(y), fd.Name.Name)
+								x.List[i] = &ast.ExprStmt{X: y.Call}
+							}
+						}
+						if del && hit("delstmt") {
+							desc = fmt.Sprintf("%s: statement deleted in %s", pos(st), fd.Name.Name)
+							x.List = append(append([]ast.Stmt{}, x.List[:i]...), x.List[i+1:]...)
+							i--
+						}
+					}
+					for i := 0; i+1 < len(x.List); i++ {
+						_, e1 := x.List[i].(*ast.ExprStmt)
+						_, e2 := x.List[i+1].(*ast.ExprStmt)
+						_, a1 := x.List[i].(*ast.AssignStmt)
+						if (e1 || a1) && e2 && hit("swapstmt") {
+							desc = fmt.Sprintf("%s: statement swapped with the next one in %s", pos(x.List[i]), fd.Name.Name)
+							x.List[i], x.List[i+1] = x.List[i+1], x.List[i]
+						}
+					}
+				case *ast.CallExpr:
+					if sel, ok := x.Fun.(*ast.SelectorExpr); ok && sel.Sel.Name == "EqualFold" && len(x.Args) == 2 && hit("eqfold") {
+						desc = fmt.Sprintf("%s: strings.EqualFold replaced by == in %s", pos(x), fd.Name.Name)
+						// rewritten below through the parent: mark by renaming to a helper we add
+						sel.Sel.Name = "EqualFold"
+						x.Fun = &ast.Ident{Name: "gldapverifStrEq"}
+					}
+				}
+				return true
+			})
+		}
+		if apply < 0 {
+			return nil, ""
+		}
+		var buf bytes.Buffer
+		if err := format.Node(&buf, fset, file); err != nil {
+			return nil, ""
+		}
+		out := buf.Bytes()
+		if kindSel == "eqfold" {
+			out = append(out, []byte("\nfunc gldapverifStrEq(a, b string) bool { return a == b }\n")...)
+		}
+		return out, desc
+	}
+	visit(-1, "")
+	var ms []mutant
+	for _, s := range sites {
+		src, desc := visit(s.idx, s.kind)
+		if src == nil || desc == "" || bytes.Equal(src, orig) {
+			continue
+		}
+		ms = append(ms, mutant{file: rel, desc: desc, src: src})
+	}
+	return ms
+}
+
+func (c *Ctx) mutantSelfTest(self, id string) {
+	files := mutantFiles[id]
+	var all []mutant
+	for _, f := range files {
+		all = append(all, genMutants(c.Repo, f, mutantFuncs[id])...)
+	}
+	// deterministic sample
+	max := 48
+	if v := os.Getenv("VERIF_MUTANTS"); v != "" {
+		if n, err := strconv.Atoi(v); err == nil {
+			max = n
+		}
+	}
+	seed := 0
+	if v := os.Getenv("VERIF_SEED"); v != "" {
+		seed, _ = strconv.Atoi(v)
+	}
+	if len(all) > max {
+		step := float64(len(all)) / float64(max)
+		var pick []mutant
+		for i := 0; i < max; i++ {
+			pick = append(pick, all[(int(float64(i)*step)+seed)%len(all)])
+		}
+		all = pick
+	}
+	type res struct {
+		m       mutant
+		outcome string
+		first   string
+	}
+	results := make([]res, len(all))
+	sem := make(chan struct{}, 8)
+	var wg sync.WaitGroup
+	for i, m := range all {
+		wg.Add(1)
+		go func(i int, m mutant) {
+			defer wg.Done()
+			sem <- struct{}{}
+			defer func() { <-sem }()
+			dir, err := os.MkdirTemp("", "gldapmut")
+			if err != nil {
+				results[i] = res{m, "error", err.Error()}
+				return
+			}
+			defer os.RemoveAll(dir)
+			dst := filepath.Join(dir, m.file)
+			_ = os.MkdirAll(filepath.Dir(dst), 0o755)
+			_ = os.WriteFile(dst, m.src, 0o644)
+			out, code := runSelf(self, "-prop", id, "-tier", "quick", "-overlay", dir, "-noevidence", "-repo", c.Repo, "-verif", c.Verif)
+			switch {
+			case strings.Contains(out, "cannot load /repo") || strings.Contains(out, "type/parse errors"):
+				results[i] = res{m, "did-not-compile", ""}
+			case code != 0:
+				results[i] = res{m, "killed", firstViolations(out)}
+			default:
+				results[i] = res{m, "survived", ""}
+			}
+		}(i, m)
+	}
+	wg.Wait()
+	counts := map[string]int{}
+	var survived, sample []string
+	for _, r := range results {
+		counts[r.outcome]++
+		if r.outcome == "survived" {
+			survived = append(survived, r.m.desc)
+		} else if r.outcome == "killed" && len(sample) < 5 {
+			sample = append(sample, r.m.desc+" => "+r.first)
+		}
+	}
+	sort.Strings(survived)
+	c.R.Extra["mutants"] = map[string]any{
+		"generated": len(all), "killed": counts["killed"], "survived": counts["survived"], "did_not_compile": counts["did-not-compile"],
+		"survivors":     survived,
+		"killed_sample": sample,
+		"note":          "syntax-tree mutants of the property's anchor functions applied through packages.Config.Overlay; a survivor is either an equivalent mutant (e.g. a relational operator on a path the property does not constrain) or a gap of the rules; it never changes the verdict on the real tree",
+	}
+	c.R.Trivial("THOROUGH-mutants", id+": mutant self-test", "-", fmt.Sprintf("%d mutants: %d killed, %d survived, %d did not compile", len(all), counts["killed"], counts["survived"], counts["did-not-compile"]))
 }
